@@ -187,6 +187,7 @@ def run(fx, chk, tier):
     chk.rule("R6", "the size word of every box equals the number of bytes its layout writes, in every shape cell (C04 S1/S2 instances)")
     chk.rule("R5", "four-character-code, enum-code and packed-language conversions used by the encoders/decoders equal the registered tables (C16 R1/R2/R3/R5 instances)")
     chk.assume("spec/layouts.json, spec/bits.json, spec/fourcc.json were written from the standards; entries marked unverified only produce notes")
+    not_compared = set()
     ms = c04.models(fx)
     chk.floor("R1", "box types with a specification entry", len([m for m in ms.values() if m.s in SPEC]), 44)
     for ty, m in sorted(ms.items()):
@@ -218,6 +219,7 @@ def run(fx, chk, tier):
         def shared(atom):
             var = re.split(r"==|&0x|@|>|<", atom.replace("some(", "").replace("empty(", "").rstrip(")"))[0]
             return var.split(".")[0] in fields or var in ("self",) or atom in {v[0] for v in m.cp.values()}
+        L2.set_fixed(c04.fixed_of(adt))
         groups = {}
         for cell in m.cells:
             key = tuple(sorted((k, v) for k, v in cell["A"].items() if shared(k)))
@@ -252,12 +254,21 @@ def run(fx, chk, tier):
                 rbad = gr
         unver = "unverified" in (sp.get("note") or "")
         for side, bad, fn in (("write", wbad, m.fw), ("read", rbad, m.fr)):
+            if bad is not None:
+                u = c04.model_vocab_issue(fx, m, adt, side[0])
+                if u:
+                    chk.note("%s %s layout not compared with the specification (the extraction contains `%s`, which is outside the layout vocabulary)" % (s, side, u))
+                    chk.ok("R1", "%s|%s" % (s, side), "not compared: `%s` is outside the layout vocabulary" % u, site_of(fn))
+                    not_compared.add(s)
+                    continue
             if bad is not None and unver:
                 chk.note("%s %s layout differs from an unverified specification entry in cell %s: %s" % (s, side, c04.cell_str(bad[0]), bad[1]))
                 chk.ok("R1", "%s|%s" % (s, side), "not compared strictly (specification entry marked unverified)", site_of(fn))
                 continue
             chk.require(bad is None, "R1", "%s|%s" % (s, side), "%s layout == %s in %d cells" % (side, sp["source"], ncell),
                         "%s: %s_box does not follow %s in cell %s: %s" % (s, side, sp["source"], c04.cell_str(bad[0]), bad[1]) if bad else "", site_of(fn))
+    chk.analysed["boxes_not_compared"] = sorted(not_compared)
+    chk.floor("R1", "box types compared with the specification", len([m_ for m_ in ms.values() if m_.s in SPEC]) - len(not_compared), 40)
     r3(fx, chk, ms)
     r4(fx, chk)
     # ---------------- R5: conversions the layouts are written through (instances owned by C16, re-evaluated here)
